@@ -49,7 +49,7 @@ def _run(km, mesh, q, cutoff, mode, dim, want):
         kern = model.make_kernel([q[0::2], q[1::2]])
     stale = [term(x) for x in kern.result]
     cd, values, is_mag = sdetails.make_kernel_args(kern, mesh)
-    out = {"stale": stale, "num_eval": int(cd.num_eval)}
+    out = {"stale": stale, "num_eval": int(cd.num_eval), "is_mag": bool(is_mag)}
     if want == "call":
         # the chunk loop only (H3): no Python-level post-processing forks
         kern._call_kernel(cd, values, cutoff, is_mag, mode)
@@ -91,7 +91,10 @@ def _prove_side(u, side, H, mk):
 def unit_h1(cfg):
     name, dim, lengths, mode, want = cfg[:5]
     pid = cfg[5] if len(cfg) > 5 else "C01"
+    magnetic = cfg[6] if len(cfg) > 6 else False
     label = "H1/%s/%s/%s/mode=%s/%s" % (name, dim, ",".join("%s=%d" % kv for kv in sorted(lengths.items())) or "mono", mode, want)
+    if magnetic:
+        label += "/magnetic=" + ("all" if magnetic is True else "+".join(sorted(magnetic)))
     u = Unit(label, timeout_ms=60000)
     try:
         km = KModel.get(name)
@@ -100,16 +103,25 @@ def unit_h1(cfg):
         u.error("IR build/parse failed for %s: %r" % (name, e))
         return u.r
     info = km.info
-    mesh, syms = sym_mesh(info, lengths, dim)
+    mesh, syms = sym_mesh(info, lengths, dim, magnetic=magnetic)
     nq = 2 if dim == "1d" else 1
     q = symx.oarray([symx.real("q%d" % i) for i in range(nq * (1 if dim == "1d" else 2))])
     cutoff = symx.real("cutoff")
     A = kharness.mesh_constraints(syms) + [cutoff.t >= 0]
+    ref_plain = Reference(km, mesh, q, cutoff, mode, dim)
+    ref_mag = None
+    if magnetic:
+        ref_mag = Reference(km, mesh, q, cutoff, mode, dim, magnetic=True)
+        # the q=0 guard is code, not property; a channel weight is either 0 or above the
+        # kernel's 1e-8 threshold (contributions below it are outside the claim)
+        A.append(q[0].t * q[0].t + q[1].t * q[1].t > symx.rat(1e-16))
+        for wc in ref_mag.channel_weights:
+            A.append(z3.Or(wc == 0, wc > symx.rat(1e-8)))
     ex = symx.Explorer(timeout_ms=20000, max_paths=3000, abstract=True)
     paths = ex.explore(lambda: _run(km, mesh, q, cutoff, mode, dim, want), A)
     u.absorb(ex, paths)
     u.reachable(label, A)
-    ref = Reference(km, mesh, q, cutoff, mode, dim)
+    ref = ref_plain
     want_buf = ref.buffer()
     scale, background = term(mesh[0][0]), term(mesh[1][0])
     u.functions("%s (IR of generated source: kernel_iq.c template + %s)" % (km.names[0 if dim == "1d" else 1], name),
@@ -130,6 +142,11 @@ def unit_h1(cfg):
                     _cex(ctx, "exception:%s" % type(p.exc).__name__, repr(p.exc)))
             continue
         r = p.result
+        if magnetic:
+            # the real convert_magnetism decided (on this path) whether any magnitude is non-zero
+            ref = ref_mag if r["is_mag"] else ref_plain
+            want_buf = ref.buffer()
+            u.note("path %d: magnetic kernel selected = %s" % (pi, r["is_mag"])) if pi < 2 else None
         defs = set(d.get_id() for d in r["defs"])
         if pi < 3:
             u.sample({"config": label, "path": pi, "kernel_calls": r["calls"],
@@ -510,11 +527,17 @@ def real_vs_reference(name, dim, mesh, q, cutoff, mode):
             continue
         one = one / one[nout * nq]
         if dim == "2d":
-            # independent orientation: the model's own Iqac/Iqabc (float-mode IR of the
-            # real source) at R^-1 (qx,qy,0) computed here from the documented matrices
-            indep = _oriented_point(name, mesh, multi, qv)
-            if indep is not None:
-                one[:nq] = indep
+            mag = _magnetic_point(name, kern, pt, mesh, qv, nq)
+            if mag is not None:
+                # independent polarisation analysis: documented channel SLDs and weights,
+                # each channel evaluated by the non-magnetic kernel
+                one[:nq] = mag
+            else:
+                # independent orientation: the model's own Iqac/Iqabc (float-mode IR of the
+                # real source) at R^-1 (qx,qy,0) computed here from the documented matrices
+                indep = _oriented_point(name, mesh, multi, qv)
+                if indep is not None:
+                    one[:nq] = indep
         ref += w * one
     scale, bg = mesh[0][0], mesh[1][0]
     Iref = scale * ref[0:nout * nq:nout] / ref[nout * nq + 2] + bg if ref[nout * nq] != 0 and ref[nout * nq + 2] != 0 \
@@ -526,6 +549,58 @@ def real_vs_reference(name, dim, mesh, q, cutoff, mode):
     relI = np.where(np.isfinite(relI), relI, 0.0)
     return float(max(rel.max(), relI.max())), {"real": real.tolist(), "reference": ref.tolist(),
                                                "I_real": Ireal.tolist(), "I_reference": Iref.tolist()}
+
+
+def _magnetic_point(name, kern, pt, mesh, qv, nq):
+    """Polarised intensity of one mesh point from the documented formula, every
+    channel evaluated with the real *non-magnetic* 2-D kernel."""
+    info = kern.info
+    pars = info.parameters
+    npars = pars.npars
+    m0 = 2 + npars
+    if pars.nmagnetic == 0 or len(mesh) <= m0:
+        return None
+    vals = [float(m[0]) for m in mesh]
+    slds = [(i, p) for i, p in enumerate(pars.call_parameters[2:2 + npars]) if p.type == "sld"]
+    M0s = [vals[m0 + 4 + 3 * k] for k in range(len(slds))]
+    if not any(m != 0.0 for m in M0s):
+        return None
+    i_, f_ = np.clip(vals[m0], 0, 1), np.clip(vals[m0 + 1], 0, 1)
+    uth, uph = np.radians(vals[m0 + 2]), np.radians(vals[m0 + 3])
+    norm = max(f_, 1 - f_)
+    w = {"dd": (1 - i_) * (1 - f_) / norm, "du": (1 - i_) * f_ / norm,
+         "ud": i_ * (1 - f_) / norm, "uu": i_ * f_ / norm}
+    P = np.array([np.sin(uth) * np.cos(uph), np.sin(uth) * np.sin(uph), np.cos(uth)])
+    e1 = np.array([-np.sin(uph), np.cos(uph), 0.0])
+    e2 = np.array([-np.cos(uth) * np.cos(uph), -np.cos(uth) * np.sin(uph), np.sin(uth)])
+    model = core.build_model(info, dtype="double", platform="dll")
+    out = np.zeros(nq)
+    for j in range(nq):
+        qx, qy = float(qv[0][j]), float(qv[1][j])
+        qh = np.array([qx, qy, 0.0]) / np.hypot(qx, qy)
+        k1 = model.make_kernel([np.array([qx]), np.array([qy])])
+        chans = [("dd", lambda rho, m: rho - P @ m), ("du", lambda rho, m: e1 @ m), ("ud", lambda rho, m: e1 @ m),
+                 ("uu", lambda rho, m: rho + P @ m), ("du", lambda rho, m: -(e2 @ m)), ("ud", lambda rho, m: e2 @ m)]
+        for cname, fn in chans:
+            if w[cname] == 0.0:
+                continue
+            ptc = list(pt)
+            for k, (i, p) in enumerate(slds):
+                M0, mth, mph = vals[m0 + 4 + 3 * k: m0 + 7 + 3 * k]
+                mth, mph = np.radians(mth), np.radians(mph)
+                M = M0 * np.array([np.sin(mth) * np.cos(mph), np.sin(mth) * np.sin(mph), np.cos(mth)])
+                mperp = M - qh * (qh @ M)
+                rho = float(pt[2 + i][1][0])
+                v = float(fn(rho, mperp))
+                ptc[2 + i] = (v, np.array([v]), np.array([1.0]))
+            # switch magnetism off for the channel evaluation
+            for k in range(len(slds)):
+                ptc[m0 + 4 + 3 * k] = (0.0, np.array([0.0]), np.array([1.0]))
+            cd1, v1, m1 = sdetails.make_kernel_args(k1, ptc)
+            k1.Fq(cd1, v1, -1.0, m1, 0)
+            if k1.result[1] != 0:
+                out[j] += w[cname] * k1.result[0] / k1.result[1]
+    return out
 
 
 def _oriented_point(name, mesh, multi, qv):
